@@ -23,7 +23,7 @@ func init() {
 		Level: "exploration",
 		Rule: "random Muxer histories over Add/Remove/SetPCRPID/WriteTables/WriteData/WritePacket with valid and rejected arguments (unknown PID, duplicate PID, oversize WritePacket payload / adaptation field, " +
 			"invalid PCR PID, PMT too large for one packet), payload sizes around every packet boundary, first-packet adaptation fields leaving 0,1,2,few,many bytes, retransmit periods 1..50, edge-of-contract PES optional headers in a quarter of the histories, automatic PID assignment until the range is exhausted, automatic PID assignment until the range is exhausted, plus an exhaustive " +
-			"WritePacket size grid; plus long sessions (stage endurance: units of 256 packets to 2 MiB, 131 500 calls, thousands of automatic PIDs); after every call the bytes that reached the writer tap are judged by the independent packet decoder; distinct = hash of the output bytes; non-trivial = ≥1 rejected and ≥1 accepted call or ≥3 packets",
+			"WritePacket size grid; plus long sessions (stage endurance: units of 256 packets to 2 MiB, 131 500 calls, thousands of automatic PIDs); after every call the bytes that reached the writer tap are judged by the independent packet decoder; distinct = hash of the output bytes; non-trivial = ≥1 rejected and ≥1 accepted call or ≥3 packets; every PES unit written is decoded by the reference decoder (fields within PES_header_data_length, data behind the header = data handed to WriteData), with PES_private_data of other lengths than 16 and PTS_DTS_flags values above 3 among the inputs",
 		Assumptions: []string{"writer tap accepts everything (I/O failures are C18's subject)", "WritePacket traffic uses PIDs the Muxer does not own"},
 		Shards:      32,
 		Run:         func(c *mon.Ctx) { runMuxStruct(c, "C04") },
@@ -535,6 +535,15 @@ func checkStructure(c *mon.Ctx, stage string, idx int64, hr *HistRun) {
 				}
 				if len(unit) < len(cl.Op.Data.PES.Data)+6 {
 					c.Violate("C04/pes-unit-shorter-than-payload", stage, idx, fmt.Sprintf("call %d: unit %d bytes, payload %d", k, len(unit), len(cl.Op.Data.PES.Data)), data)
+					return
+				}
+				// the PES header as an independent decoder reads it: the fields its flags announce fit PES_header_data_length, and
+				// the data that follow the header are the data handed to WriteData
+				if dec, derr := refts.DecodePES(unit); derr != nil {
+					c.Violate("C04/pes-header-inconsistent", stage, idx, fmt.Sprintf("call %d: the reference decoder rejects the PES packet written (%v): %x", k, derr, clipBytes(unit, 24)), data)
+					return
+				} else if !bytes.Equal(dec.Data, cl.Op.Data.PES.Data) {
+					c.Violate("C04/pes-header-inconsistent", stage, idx, fmt.Sprintf("call %d: behind the header as its flags and PES_header_data_length describe it the reference decoder finds %d data bytes (%x), %d were handed to WriteData (%x)", k, len(dec.Data), clipBytes(dec.Data, 12), len(cl.Op.Data.PES.Data), clipBytes(cl.Op.Data.PES.Data, 12)), data)
 					return
 				}
 				c.Count("pes_units_length_checked")
